@@ -7,6 +7,7 @@ gentoo ebuild atom, should be generalized into an agnostic base
 
 __all__ = ("atom", "transitive_use_atom")
 
+import re
 import string
 
 from snakeoil import klass
@@ -33,6 +34,21 @@ alphanum = frozenset(alphanum)
 valid_repo_chars = frozenset(valid_repo_chars)
 valid_slot_chars = frozenset(valid_slot_chars)
 valid_ops = frozenset(["<", "<=", "=", "~", ">=", ">"])
+
+
+def _glob_regex(fullver: str) -> str:
+    """Regex for the versions matched by a ``=cat/pkg-fullver*`` atom.
+
+    The written version has to end on a version component boundary of the
+    matched version: ``1*`` matches 1, 1.2, 1a, 1_p1 and 1-r1, but not 10.
+    """
+    if fullver[-1].isdigit():
+        return re.escape(fullver) + "(?![0-9])"
+    return re.escape(fullver) + "(?![a-z])"
+
+
+def _glob_match(glob_fullver: str, fullver: str) -> bool:
+    return re.match(_glob_regex(glob_fullver), fullver) is not None
 
 
 class atom(boolean.AndRestriction):
@@ -379,7 +395,8 @@ class atom(boolean.AndRestriction):
             if self.op == "=*":
                 r.append(
                     packages.PackageRestriction(
-                        "fullver", values.StrGlobMatch(self.fullver)
+                        "fullver",
+                        values.StrRegex(_glob_regex(self.fullver), match=True),
                     )
                 )
             else:
@@ -588,13 +605,13 @@ class atom(boolean.AndRestriction):
         # If one of us is an exact match we intersect if the other matches it:
         if self.op == "=":
             if other.op == "=*":
-                return self.fullver.startswith(other.fullver)
+                return _glob_match(other.fullver, self.fullver)
             return restricts.VersionMatch(
                 other.op, other.version, other.revision
             ).match(self)
         if other.op == "=":
             if self.op == "=*":
-                return other.fullver.startswith(self.fullver)
+                return _glob_match(self.fullver, other.fullver)
             return restricts.VersionMatch(self.op, self.version, self.revision).match(
                 other
             )
@@ -605,16 +622,16 @@ class atom(boolean.AndRestriction):
 
         # If we are both glob matches we match if one of us matches the other.
         if self.op == other.op == "=*":
-            return self.fullver.startswith(other.fullver) or other.fullver.startswith(
-                self.fullver
+            return _glob_match(other.fullver, self.fullver) or _glob_match(
+                self.fullver, other.fullver
             )
 
         # If one of us is a glob match and the other a ~ we match if the glob
         # matches the ~ (ignoring a revision on the glob):
         if self.op == "=*" and other.op == "~":
-            return other.fullver.startswith(self.version)
+            return _glob_match(self.version, other.fullver)
         if other.op == "=*" and self.op == "~":
-            return self.fullver.startswith(other.version)
+            return _glob_match(other.version, self.fullver)
 
         # If we get here at least one of us is a <, <=, > or >=:
         if self.op in ("<", "<=", ">", ">="):
@@ -676,7 +693,7 @@ class atom(boolean.AndRestriction):
                 # If and only if other also matches ranged then
                 # ranged will also match one of those smaller packages.
                 # XXX (I think, need to try harder to verify this.)
-                return ranged.fullver.startswith(other.version)
+                return _glob_match(other.version, ranged.fullver)
             else:
                 # Remaining cases where this intersects: there is a
                 # package greater than ranged.fullver and
@@ -687,7 +704,7 @@ class atom(boolean.AndRestriction):
                 # If and only if other also matches ranged then
                 # ranged will match such a larger package
                 # XXX (I think, need to try harder to verify this.)
-                return ranged.fullver.startswith(other.version)
+                return _glob_match(other.version, ranged.fullver)
 
         # Handled all possible ops.
         raise NotImplementedError(
